@@ -121,7 +121,7 @@ def mark_stale_after_solve(dom, written_in_solve):
                        else drv.S("STALE", name, i) for i in range(len(v.items))]
         elif isinstance(v, (bool,)) or name == "full_grid_smoothing_":
             g[name].set(drv.S("STALE", name))
-        elif isinstance(v, Opaque):
+        elif isinstance(v, (Opaque, drv.Handle, drv.Ptr, drv.OptVal)):
             pass
         else:
             g[name].set(drv.S("STALE", name))
@@ -193,5 +193,55 @@ def scenario_reuse(prog, mode, first_choices_all_true=True):
         o = Outcome(dom, acc)
         o.choice_log = dom.choice_log[getattr(dom, "choice_first", 0):]
         o.written_first = written
+        outs.append(o)
+    return outs
+
+
+def scenario_resetup(prog, mode_a, mode_b):
+    """setup(A); solve(); <options changed to B>; setup(); solve(): everything the first phase left (work vectors, right-hand
+    sides, every setup- or solve-owned member) is STALE before the second setup. Returns Outcomes of the second solve."""
+    outs = []
+    SETUP_OWNED = ("number_of_levels_", "full_grid_smoothing_", "interpolation_")
+
+    def body(dom, it):
+        run_setup(dom, it)
+        dom.policy = False
+        dom.gm.f["max_iterations_"].set(2)
+        it.call_function(prog.fn("GMGPolar::solve"), dom.gm, [])
+        dom.policy = None
+        # ---- the caller changes options; nothing else is touched
+        written = set(dom.field_writes)
+        mark_stale_after_solve(dom, written)
+        for k, b in dom.bufs.items():
+            b["val"] = stale(k[0], k[1])
+        ref = drv.DrvDomain(prog, mode_b)
+        ref.interp = it
+        g2 = ref.make_state()
+        for name in ("FMG_", "FMG_iterations_", "FMG_cycle_", "extrapolation_", "multigrid_cycle_", "pre_smoothing_steps_", "post_smoothing_steps_",
+                     "max_iterations_", "residual_norm_type_", "absolute_tolerance_", "relative_tolerance_", "verbose_", "paraview_", "exact_solution_",
+                     "stencil_distribution_method_", "cache_density_profile_coefficients_", "cache_domain_geometry_"):
+            dom.gm.f[name].set(g2.f[name].get())
+        dom.gm.f["number_of_levels_"].set(drv.S("STALE", "number_of_levels_"))
+        dom.gm.f["full_grid_smoothing_"].set(drv.S("STALE", "full_grid_smoothing_"))
+        dom.mode = mode_b
+        dom.L = mode_b["L"]
+        dom.levels_built = None      # levels_ still holds the old levels until setup() clears it
+        dom.level_ops = None
+        dom.nofork_pred = scalar_has_stale
+        dom.events = []
+        dom.choice_first = len(dom.choice_log)
+        dom.converged_calls = []
+        dom.field_writes = set()
+        it.call_function(prog.fn("GMGPolar::setup"), dom.gm, [])
+        dom.setup2_writes = set(dom.field_writes)
+        it.call_function(prog.fn("GMGPolar::solve"), dom.gm, [])
+
+    for dom in drv.run_paths(prog, mode_a, body):
+        acc = {}
+        if not dom.throws:
+            it = Interp(prog, dom)
+            acc = call_accessors(dom, it)
+        o = Outcome(dom, acc)
+        o.choice_log = dom.choice_log[getattr(dom, "choice_first", 0):]
         outs.append(o)
     return outs
